@@ -335,6 +335,24 @@ def w_pn_known():
     return "ok client 1-RTT data after an undecryptable 0-RTT packet is exported (30 connections)"
 
 
+def w_foreign_retry_empty_dcid():
+    import collections
+    impl, tlsgen, table, _ = env()
+    from lib import quicgen
+    from ref import capgen, synth
+    rng = random.Random(5)
+    s = quicgen.make(rng, collections.Counter(), early=False, retry=False, client_cid_len=0, server_cid_len=8, key_updates=0, napp=6)
+    pk = quicgen.packets(s, rng)
+    st, base = impl.run(capgen.to_pcapng(pk), s.keylog, [])
+    c, sv = tlsgen.endpoints(rng, len(s.client.ip) == 16, server_port=5555, idx=9)
+    foreign = bytes([0xf0]) + b"\x00\x00\x00\x01" + b"\x00" + b"\x08" + bytes(8) + bytes(24) + bytes(16)
+    mid = len(pk) // 2
+    f = {"ts": pk[mid]["ts"], "frame": synth.udp_frame(c.mac, sv.mac, c.ip, sv.ip, c.port, sv.port, foreign)}
+    st2, out2 = impl.run(capgen.to_pcapng(pk[:mid] + [f] + pk[mid:]), s.keylog, [])
+    return "ok a foreign Retry-looking datagram with an empty DCID leaves the connection's export unchanged (%d bytes)" % len(base) if (st2, out2) == (st, base) else \
+           "FAILS one foreign UDP datagram (unrelated addresses, long header, DCID length 0, Retry type) cuts a bystander connection's export from %d to %d bytes" % (len(base), len(out2 or b""))
+
+
 def w_short_cid_direction():
     impl, *_ = env()
     from ref import readback
@@ -388,6 +406,7 @@ W = {  # name: (property, commit, tag, function, one-line description)
     "quic-pn-after-failed-decrypt": ("C02", "c34e00a", "quic-pn-commit", w_pn_known, "a packet that failed to decrypt advanced the largest packet number: later 1-RTT packets lost"),
     "quic-short-cid-direction": ("C02", "20fd46b", "quic-short-cid-direction", w_short_cid_direction, "1-byte connection IDs: datagrams matched the peer's ID by chance and were taken for the opposite direction"),
     "quic-short-cid-other-connection": ("C04", "b38f70d", "quic-short-cid-cross", w_short_cid_other_connection, "a datagram matched the short connection ID of another connection's session and was lost for its own"),
+    "foreign-retry-empty-dcid": ("C03", "994a2fd", "quic-empty-dcid-long-header", w_foreign_retry_empty_dcid, "a stray long-header datagram with DCID length 0 was handed to a bystander session with a zero-length connection ID (a Retry wiped its keys)"),
     "legacy-nanosecond-pcap": ("C12", "7467fb4", "legacy-ns", w_legacy_nano, "legacy pcap with nanosecond magic: TypeError in the writer"),
 }
 
